@@ -82,7 +82,10 @@ def build(case):
     glog = []
     subs = {}
     for spec in case['subs']:
-        cls = scripted.make_class(['A'], lags=spec.get('lags', 0), leads=spec.get('leads', 0))
+        # ('endogenous': [] - a submodel that declares no endogenous variable: its own code still moves A, a check variable)
+        endo = spec.get('endogenous', ['A'])
+        cls = scripted.make_class(endo, check=['A'], exogenous=('X',) if 'A' in endo else ('A', 'X'),
+                                  lags=spec.get('lags', 0), leads=spec.get('leads', 0))
         span = range(n) if not spec.get('span') else range(spec['span'][0], spec['span'][1])
         m = cls(span, A=np.array([1.0 + i for i in range(len(span))]), X=np.arange(float(len(span))))
         scripted.arm(m, spec.get('script'))
@@ -124,8 +127,10 @@ def ref_linker(case, n):
             exp['exc'] = 'IndexError'
             return exp
         lin['L'][T] = lin['L'][T + offset]
+        endo_of = {s['id']: s.get('endogenous', ['A']) for s in case['subs']}
         for sid in selected:
-            subs[sid]['A'][T] = subs[sid]['A'][T + offset]
+            if 'A' in endo_of[sid]:        # (the copy concerns the endogenous variables)
+                subs[sid]['A'][T] = subs[sid]['A'][T + offset]
     scripts = {s['id']: s.get('script') or {} for s in case['subs']}
     lscript = case.get('linker_script') or {}
     tol = opts.get('tol', 1e-10)
@@ -346,6 +351,18 @@ def _gen_lattice(bound):
                 for max_iter in (1, 2, 3):
                     yield {'subs': [{'id': 'a', 'script': sa, 'check': chk}, {'id': 'b', 'script': {}}], 'n': 3, 't': 1,
                            'opts': {'min_iter': 0, 'max_iter': max_iter, 'tol': 0.25, 'failures': 'ignore'}}
+        # a submodel without endogenous variables (a data holder whose own code nevertheless runs every pass)
+        for which in (0, 1):
+            for mv in (0, 2, 3):
+                for max_iter in (1, 2, 3, 4):
+                    for offset in (0, -1):
+                        sa = {'1:1': [['A', TOKS[3]]], '1:2': [['A', TOKS[mv]]]} if mv else {'1:1': [['A', TOKS[3]]]}
+                        subs_ = [{'id': 'a', 'script': sa if which == 0 else {}}, {'id': 'b', 'script': sa if which == 1 else {}}]
+                        subs_[which]['endogenous'] = []
+                        opts_ = {'min_iter': 0, 'max_iter': max_iter, 'tol': 0.25, 'failures': 'ignore'}
+                        if offset:
+                            opts_['offset'] = offset
+                        yield {'subs': subs_, 'n': 3, 't': 1, 'opts': opts_}
         # selections: every subset and order of three submodels, with scripts that would be visible if evaluated
         specs = [{'id': sid, 'lags': i, 'leads': 2 - i, 'script': {'1:1': [['A', ['move', 1.0 + i]]], '1:2': [['A', ['move', 0.5]]]}}
                  for i, sid in enumerate(SUB_IDS)]
